@@ -168,6 +168,32 @@ def local_consts(run: Run, mod, fi: FuncInfo) -> dict:
     return env
 
 
+def check_number_kind(run: Run) -> None:
+    run.rule("R13.7", "the reader hands the validator a number for a single NUMBER token: in Parser.parse_value, after the multi-word sub-branch of the NUMBER branch, every return is `token.value` (not the lexeme / a string), so every numeral the NUMBER fragment derives is read with the kind TYPE[NUMBER] accepts", 1)
+    pm = run.project.mod("core.parser")
+    fi = pm.func("Parser.parse_value")
+    branch = None
+    for n in walk_no_nested(fi.node):
+        if isinstance(n, ast.If) and ast.unparse(n.test) == "token.type == TokenType.NUMBER":
+            branch = n
+    if branch is None:
+        raise AnalysisError("parse_value: NUMBER branch not found")
+    # sub-branches that look at what FOLLOWS the number (multi-word values, NUMBER[..]OPERATOR) legitimately return text;
+    # everything else in the branch is the single-token path
+    look = {n.targets[0].id for n in ast.walk(branch) if isinstance(n, ast.Assign) and len(n.targets) == 1 and isinstance(n.targets[0], ast.Name) and isinstance(n.value, ast.Call) and ast.unparse(n.value.func) in ("self.peek", "self._peek_past_brackets_at")}
+    rets = []
+    for st in branch.body:
+        if isinstance(st, ast.Return):
+            rets.append(st)
+        elif isinstance(st, ast.If) and not ({x.id for x in ast.walk(st.test) if isinstance(x, ast.Name)} & look) and "self.peek()" not in ast.unparse(st.test):
+            rets += [r for r in ast.walk(st) if isinstance(r, ast.Return)]
+    bad = [r for r in rets if r.value is None or ast.unparse(r.value) != "token.value"]
+    ok = bool(rets) and not bad
+    run.instance("R13.7", pm.loc(branch), f"parse_value: standalone NUMBER returns {[ast.unparse(r.value) if r.value is not None else None for r in rets]}", ok=ok)
+    for r in bad:
+        run.violation("R13.7", pm, "Parser.parse_value", f"standalone NUMBER returns {ast.unparse(r.value) if r.value is not None else None}", f"for a single NUMBER token parse_value can return `{ast.unparse(r.value) if r.value is not None else None}` instead of the numeric value: a numeral the grammar's NUMBER rule derives (e.g. 007) reaches the validator as a string and TYPE[NUMBER] rejects a line the field's own rule generated")
+
+
 def check(run: Run) -> None:
     lm = lexmodel.build(run.project)
     A = lm.alphabet
@@ -358,6 +384,7 @@ def check(run: Run) -> None:
     if w is not None:
         run.violation("R13.4", gm, cs.qualname, f"{sep} ::= {sep_def} between \"::\" and the value", f"between `::` and the value the grammar can derive {w!r}: a tab makes the lexer raise E005 and a line break detaches the value from its key, so a generated line is not read as FIELD::value",
                       witness=repr(w), failing_input="any schema: derive NAME::<TAB>value from the field rule -> LexerError E005 (tabs are not allowed)")
+    check_number_kind(run)
 
 
 def _literal_prefix(pattern: str) -> str:
